@@ -1228,6 +1228,11 @@ class _Ctx:
         args = [self.ev(a, st) for a in e.args]
         kw = {k.arg if k.arg is not None else '**': self.ev(k.value, st) for k in e.keywords}
         tgt: CallTarget = self.ti.resolve_call(e, self.fn, self.types)
+        # flow-sensitive refinement: a local that holds a known package function on this path (reaching definition)
+        if isinstance(f, ast.Name) and f.id in st.env and isinstance(st.env[f.id], Sym) and st.env[f.id].name.startswith('<func '):
+            q = st.env[f.id].name[6:-1]
+            if q in self.prog.functions:
+                tgt = CallTarget('pkg', [self.prog.functions[q]], via='local', name=f.id)
         if tgt.resolved:
             self.w.stats['calls_resolved'] += 1
         else:
